@@ -43,6 +43,12 @@ def to_steel(form):
             n, kind = r.split(":")
             parts.append(n if kind == "r" else "(%s)" % n)
         return "(define (%s) (list %s))" % (t[1], " ".join(parts))
+    if k == "defw":
+        # the same observable behaviour as `deff f t:c`, but the reference to t lives in a CAPTURED closure of an instance
+        # of one shared lambda expression (instances share the function id and differ in their captures)
+        return "(define %s (c06wrap (lambda () (%s))))" % (t[1], t[2])
+    if k == "wrapdef":
+        return "(define (c06wrap f) (lambda () (list (f))))"
     if k == "defs":
         return "(define (%s v) (set! %s v) 0)" % (t[1], t[2])
     if k == "set":
@@ -69,7 +75,7 @@ def gen_history(rng, npieces, stream):
     the open findings; 'k06a' / 'k06b' deliberately produce them."""
     kind = {}          # name -> 'var' | 'fn' | 'setter'
     counter = [100]
-    pieces = []
+    pieces = [["wrapdef"]]
 
     def fresh():
         counter[0] += 1
@@ -91,7 +97,11 @@ def gen_history(rng, npieces, stream):
             if kind.get(f, "fn") == "fn":
                 cands = defined("var") + [g for g in defined("fn") if g != f] + defined("prim")
                 refs = rng.sample(cands, min(len(cands), rng.randint(1, 3)))
-                piece.append("deff %s %s" % (f, " ".join("%s:%s" % (n, "r" if kind[n] == "var" else "c") for n in refs)))
+                callable_ = [n for n in refs if kind[n] != "var"]
+                if callable_ and rng.random() < 0.35:
+                    piece.append("defw %s %s" % (f, callable_[0]))
+                else:
+                    piece.append("deff %s %s" % (f, " ".join("%s:%s" % (n, "r" if kind[n] == "var" else "c") for n in refs)))
                 kind[f] = "fn"
         elif r < 0.53:
             # a global that holds a built-in procedure; functions call it, later pieces assign it
@@ -157,12 +167,15 @@ def gen_chain_history(rng, depth, churn):
         counter[0] += 1
         return counter[0]
 
-    pieces = [["defc v0 %d" % fresh()], ["deff c0 v0:r"]]
+    pieces = [["wrapdef"], ["defc v0 %d" % fresh()], ["deff c0 v0:r"]]
     for i in range(1, depth + 1):
         refs = ["c%d:c" % (i - 1)]
         if i >= 2 and rng.random() < 0.3:
             refs.append("c%d:c" % rng.randrange(i - 1))        # extra edges: the graph is not always a path
-        pieces.append(["deff c%d %s" % (i, " ".join(refs))])
+        if len(refs) == 1 and rng.random() < 0.5:
+            pieces.append(["defw c%d c%d" % (i, i - 1)])        # the link lives in a captured closure
+        else:
+            pieces.append(["deff c%d %s" % (i, " ".join(refs))])
     pieces.append(["deff top c%d:c" % depth])
     pieces.append(["call top"])
     order = list(range(depth + 1))
@@ -220,10 +233,10 @@ def in_k06b_class(pieces, idx):
             for t in forms:
                 if t[0] == "rfail":
                     after = True
-                elif after and t[0] in ("defc", "deff", "defs") and t[1] in seen:
+                elif after and t[0] in ("defc", "deff", "defs", "defw") and t[1] in seen:
                     return True
         for t in forms:
-            if t[0] in ("defc", "deff", "defs"):
+            if t[0] in ("defc", "deff", "defs", "defw"):
                 seen.add(t[1])
     return False
 
@@ -271,7 +284,14 @@ def run_histories(ctx, histories, label, stats, known):
     for chunk in rh:
         m = re.match(r"init ## s=(\d+) f=(\d+) t=(\d+) e=(\d+)", chunk[0]) if chunk else None
         inits.append(m.groups() if m else ("0", "0", "100", "1"))
-    abstract = "\n".join("init %s %s %s\n" % (i[0], i[2], i[3]) + "\n".join(";".join(p) for p in h) + "\nreset"
+    def for_driver(f):
+        t = f.split()
+        if t[0] == "defw":
+            return "deff %s %s:c" % (t[1], t[2])
+        if t[0] == "wrapdef":
+            return "defc c06wrap 0"
+        return f
+    abstract = "\n".join("init %s %s %s\n" % (i[0], i[2], i[3]) + "\n".join(";".join(for_driver(f) for f in p) for p in h) + "\nreset"
                          for h, i in zip(histories, inits)) + "\n"
     rc, mout, merr = C.run_bin([drv, "hist"], abstract, timeout=600)
     if rc != 0 or rrc != 0:
@@ -297,7 +317,7 @@ def run_histories(ctx, histories, label, stats, known):
             free_before = prev["f"]
             prev = {"s": int(t["s"]), "f": int(t["f"])}
             # class of K06c: a build that fails after it (re)defined a name while reclaimed slots were available
-            if free_before > 0 and "fail" in piece and any(f.split()[0] in ("defc", "deff", "defs") for f in piece):
+            if free_before > 0 and "fail" in piece and any(f.split()[0] in ("defc", "deff", "defs", "defw") for f in piece):
                 k06c = True
             key = (sres, tuple(piece))
             if any(f.startswith(("call", "read")) for f in piece):
@@ -371,13 +391,29 @@ def unit_sequences(rng, n, length):
             elif r < 0.70:
                 ops.append("get %s" % rng.choice(names))
             elif r < 0.80:
-                cps.append(ln); ops.append("len")
-            elif r < 0.92 and cps:
-                k = cps.pop(); ops.append("rollback %d" % k); ln = min(ln, k)
+                cps.append(ln); ops.append("mark")
+            elif r < 0.90 and cps:
+                cps.pop(); ops.append("rollbackmark")
+            elif r < 0.95:
+                # a recycler run: reclaimed slots are handed out again below the current length, so later definitions
+                # and roll-backs no longer see slots in increasing order
+                ops.append("recycle" + "".join(" %d" % rng.randrange(0, max(1, ln)) for _ in range(rng.randint(0, 2))))
+                cps = []          # the engine never rolls back across a recycler run
+                ops.append("mark"); ops.append("rollbackmark")      # forget older marks on both sides
             else:
                 ops.append("state")
         ops.append("state")
         seqs.append(ops)
+    # directed: the current definition of a name sits in a reclaimed slot BELOW an older shadowed slot of the same name,
+    # the free list is empty again, then a build that redefines the name fails
+    for nm in names:
+        for extra in (0, 1, 3):
+            ops = ["add %s" % nm, "add %s" % nm, "recycle", "add %s" % nm] + ["add z%d" % i for i in range(extra)]
+            ops += ["state", "len", "add %s" % nm, "add q", "rollback %d" % (3 + extra), "state", "get %s" % nm]
+            seqs.append(ops)
+            ops = ["add %s" % nm, "add other", "add %s" % nm, "add %s" % nm, "recycle 0", "add %s" % nm, "add %s" % nm, "state",
+                   "len", "add other", "add %s" % nm, "rollback %d" % 4, "state", "get %s" % nm, "get other"]
+            seqs.append(ops)
     return seqs
 
 
